@@ -23,11 +23,15 @@ def trusted_ctx_set(ax):
     return {x["fn"] for x in ax.get("trusted_construction_contexts", [])}
 
 
-def match_axiom(ax, fn, kind, desc):
-    """returns the axiom entry covering obligation (fn, kind, desc) or None"""
+def match_axiom(ax, fn, kind, desc, fail_chains=None):
+    """returns the axiom entry covering obligation (fn, kind, desc) or None.
+    An entry with `ctx_fn` applies only if every failing instance was reached through that function."""
     for o in ax.get("obligations", []):
         if o["fn"] != fn:
             continue
+        if o.get("ctx_fn"):
+            if not fail_chains or not all(o["ctx_fn"] in ch for ch in fail_chains):
+                continue
         if o.get("kind") and o["kind"] != kind:
             continue
         if o.get("_rx") is not None and not o["_rx"].search(desc):
